@@ -419,6 +419,9 @@ impl<'a> World<'a> {
         fe.reset();
         let lm = match self.scenario {
             Scenario::UserfileFaults => self.durable.clone().unwrap_or_default(),
+            // what the store held before the run began counts as learned ("if it is offered,
+            // it is preselected"); a restart carries the model over (see Op::Restart)
+            Scenario::LearnedDurability => self.disk.get(FileId::Store).and_then(|b| LearnModel::from_store_json(&b)).unwrap_or_default(),
             _ => LearnModel::default(),
         };
         let mut slot = Slot {
@@ -1672,6 +1675,12 @@ impl<'a> World<'a> {
             self.skip(op, "store_not_saved");
             return Ok(());
         }
+        if self.scenario == Scenario::Reconfigure && self.slots[h as usize].as_ref().unwrap().ac_seen != self.ac_epoch {
+            // C11's premise: the context has been re-configured after the last change of the
+            // user's auto-correct list (a sub-history without that update is not comparable)
+            self.skip(op, "list_changed_after_last_update");
+            return Ok(());
+        }
         let spec = self.slots[h as usize].as_ref().unwrap().host.spec;
         let td = self.disk.fork();
         match Host::spawn(spec, td, &self.env.paths) {
@@ -1798,6 +1807,7 @@ impl<'a> World<'a> {
             Mt::Now => None,
             Mt::Tie => prev_mtime,
             Mt::Back(dt) => prev_mtime.map(|t| t.saturating_sub(dt)),
+            Mt::Ahead(dt) => Some(self.disk.now().saturating_add(dt)),
         };
         let kind = match st {
             FileSt::Absent => "absent",
@@ -1811,7 +1821,23 @@ impl<'a> World<'a> {
         match mt {
             Mt::Tie => self.stats.bump("fault.mtime_tie"),
             Mt::Back(_) => self.stats.bump("fault.mtime_regress"),
+            Mt::Ahead(_) => self.stats.bump("fault.mtime_in_the_future"),
             Mt::Now => {}
+        }
+        if file == FileId::Autocorrect && cur.is_some() && bytes.is_some() {
+            // whatever the policy: an edit whose stamp is not later than the stamp of the file
+            // it replaces (also: stamped now, or less far ahead, after one stamped in the
+            // future) is, for riti, a file whose time did not advance
+            if let Some(prev) = prev_mtime {
+                let effective = mtime.unwrap_or_else(|| self.disk.now());
+                if effective < prev {
+                    self.stats.bump("fault.mtime_not_advanced.regress");
+                    self.clock_fault = Some("mtime_regress");
+                } else if effective == prev {
+                    self.stats.bump("fault.mtime_not_advanced.tie");
+                    self.clock_fault = Some("mtime_tie");
+                }
+            }
         }
         if file == FileId::Autocorrect {
             self.ac_epoch += 1;
